@@ -1,6 +1,14 @@
 ----------------------------- MODULE AggCacheMC -----------------------------
 EXTENDS AggCache
 MCNames == {<<"a">>, <<"a", "b">>, <<"b">>, <<"a", ".">>}
-MCFilters == {Filter(<<>>, <<>>, <<>>, <<>>, Cat(Bol, Cat(Lit("a"), Opt(Lit("b")))), Cat(Lit("."), Eol)),
-              Filter(<<"a">>, <<>>, <<>>, <<"b">>, AnyC, NoRe)}
+\* ^ab?  not \.$  ->  c         (literal output name)
+\* ^a(b)?         ->  ${1}      (empty output name for "a" and "a.": the group takes no part)
+\* prefix a, not sub b, (.*)$ -> $1_s   (RE2 reads a group named "1_s": always empty)
+\* ^(a)(\.*)      ->  x${2}
+MCAggs == {[f |-> Filter(<<>>, <<>>, <<>>, <<>>, Cat(Bol, Cat(Lit("a"), Opt(Lit("b")))), Cat(Lit("."), Eol)), t |-> <<TLit(<<"c">>)>>],
+           [f |-> Filter(<<>>, <<>>, <<>>, <<>>, Cat(Bol, Cat(Lit("a"), Opt(Grp(1, Lit("b"))))), NoRe), t |-> <<TRef(1)>>],
+           [f |-> Filter(<<"a">>, <<>>, <<>>, <<"b">>, Cat(Grp(1, Star(AnyC)), Eol), NoRe), t |-> <<TWord(<<"1", "_", "s">>)>>],
+           [f |-> Filter(<<>>, <<>>, <<>>, <<>>, Cat(Bol, Cat(Grp(1, Lit("a")), Grp(2, Star(Lit("."))))), NoRe), t |-> <<TLit(<<"x">>), TRef(2)>>]}
+\* the two readings of a regex (set of end positions / prioritised paths with captures) agree on WHETHER it matches
+ASSUME \A a \in MCAggs : \A n \in MCNames : (Submatch(a.f.regex, n) # <<>>) = Search(a.f.regex, n)
 =============================================================================
